@@ -1,17 +1,4 @@
 #!/bin/bash
-# usage: try_patch.sh <patch.diff> <ID> [<ID>...]   -- apply to /repo, run quick checks, always revert
-set -u
-patch=$(realpath "$1"); shift
-cd /repo || exit 3
-if ! git -C /repo apply --check "$patch" 2>/dev/null; then echo "PATCH DOES NOT APPLY: $patch"; exit 3; fi
-git -C /repo apply "$patch"
-trap 'git -C /repo checkout -- . ' EXIT
-cd /verif
-rc=0
-for id in "$@"; do
-  python3 -m cqverif.check "$id" --tier quick | grep -E "breaks:|undecided:|VIOLATION|ANALYSIS BROKEN|KNOWN-FINDING|exit" ; r=${PIPESTATUS[0]}
-  echo "== $id exit=$r"
-done
-# restore evidence of the unchanged tree
-git -C /repo checkout -- . ; trap - EXIT
-for id in "$@"; do python3 -m cqverif.check "$id" --tier quick >/dev/null; done
+# usage: try_patch.sh <patch.diff> <ID> [<ID>...]   -- run quick checks on a scratch copy of /repo with the patch applied
+# (never modifies /repo: other checks may be reading it at the same time)
+exec python3 "$(dirname "$0")/try_scratch.py" "$@"
